@@ -122,10 +122,21 @@ def check_dimension_vectors(ctx, rep):
             rep.gap("UnitDimensions::%s" % meth, "-", "impl not found")
             continue
         agg = None
+        cands = []
         for bi in range(b.n):
             for st in b.blocks[bi]["stmts"]:
-                if st["k"] == "assign" and not st["lhs"]["p"] and st["lhs"]["l"] == 0 and st["rv"]["k"] == "agg" and st["rv"].get("adt") == dim_adt:
-                    agg = (bi, st["rv"])
+                if st["k"] == "assign" and not st["lhs"]["p"] and st["rv"]["k"] == "agg" and st["rv"].get("adt") == dim_adt:
+                    cands.append((bi, st["lhs"]["l"], st["rv"]))
+        for bi, l, rv in cands:
+            # the aggregate is the result: assigned to _0 directly, or to a local that is copied into _0 (a spliced helper's result)
+            if l == 0:
+                agg = (bi, rv)
+            else:
+                for _db, si, rv0 in b.defs().get(0, []):
+                    if si != "term" and rv0["k"] == "use":
+                        src = mir.op_place(rv0["op"])
+                        if src is not None and not src["p"] and src["l"] == l and len(cands) == 1:
+                            agg = (bi, rv)
         if agg is None:
             rep.gap("UnitDimensions::%s result" % meth, b.where(), "result aggregate not found")
             continue
